@@ -150,6 +150,8 @@ func alternatives(name string) []string {
 		add(u)
 	}
 	add(strings.ReplaceAll(name, "\\", "/"))
+	add(filepath.Base(name))
+	add(filepath.Base(strings.ReplaceAll(name, "\\", "/")))
 	return out
 }
 
@@ -542,13 +544,31 @@ func TestC16_List(t *testing.T) {
 			}
 			desc = append(desc, kind+":"+name)
 		}
+		// how the caller spells the plugin root: the directory itself, a symbolic link to it (a
+		// configuration directory that lives elsewhere), or an unclean spelling of its path
+		rootVia := rp.Pick(rt, "rootVia", "direct", "direct", "symlink", "symlink", "trailing-slash", "dotdot-spelling", "symlink-chain")
+		given := root
+		switch rootVia {
+		case "symlink":
+			given = filepath.Join(tmp, "plugins-link")
+			os.Symlink(root, given)
+		case "symlink-chain":
+			os.Symlink("plugins", filepath.Join(tmp, "plugins-link1"))
+			given = filepath.Join(tmp, "plugins-link2")
+			os.Symlink("plugins-link1", given)
+		case "trailing-slash":
+			given = root + string(filepath.Separator)
+		case "dotdot-spelling":
+			given = tmp + "/outside/../plugins/."
+		}
 		before, _ := sandbox.Snapshot(tmp)
-		got, err := plugin.NewCLIManager(dir.NewSysFS(root)).List(context.Background())
+		got, err := plugin.NewCLIManager(dir.NewSysFS(given)).List(context.Background())
 		after, _ := sandbox.Snapshot(tmp)
 		sort.Strings(want)
 		sort.Strings(got)
-		cl := []string{"op=list", fmt.Sprintf("list-entries=%d", n)}
-		for _, d := range desc {
+		desc = append([]string{"root-via:" + rootVia}, desc...)
+		cl := []string{"op=list", fmt.Sprintf("list-entries=%d", n), "list-root-via=" + rootVia}
+		for _, d := range desc[1:] {
 			cl = append(cl, "entry="+strings.SplitN(d, ":", 2)[0])
 		}
 		rec.Case(cl, n >= 2, stats.Fingerprint("list", strings.Join(desc, ",")), func() any { return desc })
